@@ -1179,7 +1179,9 @@ func (p *Prog) checkPortScan(f *Func, r *Report) {
 	ast.Inspect(loop.Body, func(n ast.Node) bool {
 		if rs, ok := n.(*ast.ReturnStmt); ok && len(rs.Results) == 2 {
 			fs := p.DominatingFactList(f, rs)
-			if factListHas(fs, func(ft Fact) bool { return ft.Op == "==" && ft.Val && p.isNilExpr(ft.Y) && p.atomIsCall(f, ft.X, "transport.Net.ListenUDP") }) && !p.isNilExpr(rs.Results[0]) {
+			if factListHas(fs, func(ft Fact) bool {
+				return ft.Op == "==" && ft.Val && p.isNilExpr(ft.Y) && p.atomIsCall(f, ft.X, "transport.Net.ListenUDP")
+			}) && !p.isNilExpr(rs.Results[0]) {
 				okRet = true
 			}
 		}
